@@ -2,15 +2,20 @@ import OciModel.Driver.Funcs
 import OciModel.Driver.Scope
 import OciModel.Driver.Ref
 import OciModel.Driver.Err
+import OciModel.Driver.Mem
 
 structure DState where
   scopes : OciModel.Driver.Scope.Regs := []
+  mem : OciModel.Mem.State := OciModel.Mem.init false
 
 /-- One line in, one line out. The first token names the engine. -/
 def step (st : DState) (line : String) : DState × String :=
   match (line.trimAscii.toString.splitOn " ") with
   | ["reset"] => ({}, "ok")
   | "funcs" :: rest => (st, OciModel.Driver.Funcs.drive rest)
+  | "mem" :: rest =>
+    let (m, out) := OciModel.Driver.Mem.drive st.mem rest
+    ({ st with mem := m }, out)
   | "err" :: rest => (st, OciModel.Driver.Err.drive rest)
   | "ref" :: rest => (st, OciModel.Driver.Ref.drive rest)
   | "scope" :: rest =>
